@@ -79,13 +79,24 @@ PostClause(e, b, accepted) ==
                  /\ ~(blocks'[head'].height > blocks[head].height) THEN "C04:head_switched_without_more_work"
      ELSE IF Focus \cap {"C01", "C02", "C03"} # {} /\ (\E i \in 1..Len(p.utxo) : ~RowsNoDup(p.utxo[i][2]))
           THEN "C03:duplicate_reference_in_reported_ledger"
-     ELSE IF Focus \cap {"C01", "C02", "C03"} # {} /\ (\E i \in 1..Len(p.utxo) :
+     ELSE IF (IF accepted THEN "C03" \in Focus ELSE Focus \cap {"C01", "C02", "C03"} # {}) /\ (\E i \in 1..Len(p.utxo) :
                  LET id == p.utxo[i][1]
                      r  == ReplayUtxo(blocks', id)
                  IN ~r.ok \/ UtxoOf(p.utxo[i][2]) # r.u)
           THEN (IF accepted THEN "C03:ledger_at_block_differs_from_replay" ELSE "C01:state_changed_by_rejected_block")
      ELSE IF "C02" \in Focus /\ accepted /\ e.validated /\ b.parent \in DOMAIN blocks /\ b.height > Horizon
                  /\ ~(Total(u1) <= Total(pu) + Subsidy(b.height)) THEN "C02:total_grew_by_more_than_subsidy"
+     \* the same on the totals the node itself reports (its own unspent sets at the block and at its parent)
+     ELSE IF "C02" \in Focus /\ accepted /\ e.validated /\ b.height > Horizon
+                 /\ (\E i \in 1..Len(p.utxo) : \E j \in 1..Len(p.utxo) :
+                        /\ p.utxo[i][1] = b.id /\ p.utxo[j][1] = b.parent
+                        /\ RowsNoDup(p.utxo[i][2]) /\ RowsNoDup(p.utxo[j][2])
+                        /\ Total(UtxoOf(p.utxo[i][2])) > Total(UtxoOf(p.utxo[j][2])) + Subsidy(b.height))
+          THEN "C02:reported_total_grew_by_more_than_subsidy"
+     ELSE IF "C02" \in Focus /\ accepted /\ e.validated /\ e.allvalidated
+                 /\ (\E i \in 1..Len(p.utxo) : p.utxo[i][1] = b.id /\ RowsNoDup(p.utxo[i][2])
+                        /\ (Total(UtxoOf(p.utxo[i][2])) > CumSubsidy(b.height) \/ Total(UtxoOf(p.utxo[i][2])) > MaxMoney))
+          THEN "C02:reported_total_exceeds_schedule"
      ELSE IF "C02" \in Focus /\ accepted /\ e.validated /\ e.allvalidated
                  /\ ~(Total(u1) <= CumSubsidy(b.height) /\ Total(u1) <= MaxMoney) THEN "C02:total_exceeds_schedule"
      ELSE IF "C03" \in Focus /\ (\E i \in 1..Len(p.bal) :
